@@ -1123,38 +1123,48 @@ func checkKeyAgreement(r *Report, p *Prog) {
 		}
 	}
 	// an overwrite forgets the replaced record's registry key: a handler that stores a record with Store.Put and registers
-	// it in the registry also removes the entry of the record it replaced (loaded with Store.Get under the same key)
+	// it in the registry also removes the entry of the record it replaced (loaded with Store.Get under the same key).
+	// Stated over the handler with its helpers: the registry update/delete may sit in register/unregister helpers.
 	for _, fn := range fns {
+		if hasCallers(fn) {
+			continue // judged as part of its callers
+		}
 		a := NewAnalysis(p)
-		fc := a.Ctx(fn)
-		var puts, gets []*ssa.Call
-		var updates []*ssa.MapUpdate
-		var deletes []*ssa.Call
-		for _, b := range fn.Blocks {
-			for _, in := range b.Instrs {
-				switch x := in.(type) {
-				case *ssa.MapUpdate:
-					if strings.HasSuffix(fc.AP(x.Map), "Server.serviceProviders") {
-						updates = append(updates, x)
-					}
-				case *ssa.Call:
-					if bi, ok := x.Call.Value.(*ssa.Builtin); ok && bi.Name() == "delete" && len(x.Call.Args) == 2 && strings.HasSuffix(fc.AP(x.Call.Args[0]), "Server.serviceProviders") {
-						deletes = append(deletes, x)
-					}
-					switch storeCallKind(&x.Call) {
-					case "Put":
-						puts = append(puts, x)
-					case "Get":
-						gets = append(gets, x)
-					}
+		rg := NewRegion(p, fn, 2)
+		var puts, gets, deletes []RI
+		nUpdates := 0
+		rg.Each(func(x RI) {
+			xfc := rg.Ctx(a, x.C)
+			xfc.ensureConds()
+			if xfc.AbsCond(x.I.Block()) == a.B.False {
+				return
+			}
+			switch y := x.I.(type) {
+			case *ssa.MapUpdate:
+				if strings.HasSuffix(xfc.AP(y.Map), "Server.serviceProviders") {
+					nUpdates++
+				}
+			case *ssa.Call:
+				if bi, ok := y.Call.Value.(*ssa.Builtin); ok && bi.Name() == "delete" && len(y.Call.Args) == 2 && strings.HasSuffix(xfc.AP(y.Call.Args[0]), "Server.serviceProviders") {
+					deletes = append(deletes, x)
+				}
+				switch storeCallKind(&y.Call) {
+				case "Put":
+					puts = append(puts, x)
+				case "Get":
+					gets = append(gets, x)
 				}
 			}
-		}
-		if len(puts) == 0 || len(updates) == 0 {
+		})
+		if len(puts) == 0 || nUpdates == 0 {
 			continue
 		}
-		keyOf := func(c *ssa.Call) string {
-			f, arg := storeKeyOf(fc, c.Call.Args[0], 0)
+		keyOf := func(x RI) string {
+			c := x.I.(*ssa.Call)
+			f, arg := "?", rg.Ctx(a, x.C).AP(c.Call.Args[0])
+			for _, o := range rg.Origins(RV{V: c.Call.Args[0], C: x.C}) {
+				f, arg = storeKeyOf(rg.Ctx(a, o.C), o.V, 0)
+			}
 			if f == "?" {
 				return arg
 			}
@@ -1163,23 +1173,36 @@ func checkKeyAgreement(r *Report, p *Prog) {
 		for _, put := range puts {
 			okF := false
 			for _, g := range gets {
-				if keyOf(g) != keyOf(put) || !(g.Block() == put.Block() && instrBefore(g.Block(), g, put) || g.Block().Dominates(put.Block())) {
+				if keyOf(g) != keyOf(put) || !rg.Before(g, put) {
 					continue
 				}
-				target := g.Call.Args[1]
+				target := g.I.(*ssa.Call).Call.Args[1]
 				if mi, ok := target.(*ssa.MakeInterface); ok {
 					target = mi.X
 				}
 				for _, d := range deletes {
-					if rootOfAddr(d.Call.Args[1]) != rootOfAddr(target) && !derivesFrom(d.Call.Args[1], target, 0) {
+					dk := d.I.(*ssa.Call).Call.Args[1]
+					from := false
+					cands := rg.Origins(RV{V: dk, C: d.C})
+					if ld, ok := dk.(*ssa.UnOp); ok {
+						// *p with p a pointer handed to the helper: the address it was given
+						cands = append(cands, rg.Origins(RV{V: ld.X, C: d.C})...)
+					}
+					for _, o := range cands {
+						if o.C == g.C && (rootOfAddr(o.V) == rootOfAddr(target) || derivesFrom(o.V, target, 0)) {
+							from = true
+						}
+					}
+					if !from {
 						continue
 					}
-					if d.Block() == put.Block() && instrBefore(put.Block(), put, d) || blockReaches(put.Block(), d.Block()) {
+					pp, dp := rg.SiteIn(rg.top, put), rg.SiteIn(rg.top, d)
+					if pp != nil && dp != nil && (pp.Block() == dp.Block() && instrBefore(pp.Block(), pp, dp) || blockReaches(pp.Block(), dp.Block())) {
 						okF = true
 					}
 				}
 			}
-			r.Check(okF, rule, fmt.Sprintf("%s: overwriting a stored service unregisters the entity ID it had before", p.FnName(fn)), p.InstrPos(put), "Store.Get(key) before, delete(registry, previous key) after Store.Put(key)", "the record under "+keyOf(put)+" is replaced and the new entity ID registered, but the entity ID of the replaced record is never removed from the registry: a service overwritten with different metadata (or deleted afterwards) keeps receiving assertions under its old entity ID until restart")
+			r.Check(okF, rule, fmt.Sprintf("%s: overwriting a stored service unregisters the entity ID it had before", p.FnName(fn)), p.InstrPos(put.I), "Store.Get(key) before, delete(registry, previous key) after Store.Put(key)", "the record under "+keyOf(put)+" is replaced and the new entity ID registered, but the entity ID of the replaced record is never removed from the registry: a service overwritten with different metadata (or deleted afterwards) keeps receiving assertions under its old entity ID until restart")
 		}
 	}
 	// registry keys agree
